@@ -85,7 +85,17 @@ class SimClock:
         self.real = False
 
     def advance(self, us):
+        if self.real:
+            if us > 0:
+                _timemod.sleep(min(us, 11_500_000) / 1_000_000)
+            return
         self.us += us
+
+    def peek(self):
+        """Current instant for the harness itself (not counted as a read by code under test)."""
+        if self.real:
+            return int(_timemod.time() * 1_000_000)
+        return self.us
 
     def now_us(self):
         self.reads += 1
